@@ -191,3 +191,55 @@ pub fn corner_rules(times: &[i32], offs: &[i32]) -> Vec<MRule> {
     }
     v
 }
+
+/// Both rule days at the SAME edge of the year, with day times that throw both events into the neighbouring year (e.g. J365/100 and
+/// J365/160: DST from 4 Jan 04:00 to 6 Jan 16:00 of the next year; J1/-100 and J1/-30: both in the last days of December).
+/// Order-stable ones only.
+pub fn both_edge_rules() -> Vec<MRule> {
+    use crate::model::{MDay, MLtt};
+    let late = [MDay::J1(365), MDay::J1(364), MDay::J0(365), MDay::J0(364), MDay::M(12, 5, 0), MDay::M(12, 5, 6)];
+    let early = [MDay::J1(1), MDay::J1(2), MDay::J0(0), MDay::J0(1), MDay::M(1, 1, 0), MDay::M(1, 1, 3)];
+    let hours = [30i32, 100, 120, 160, 167];
+    let offs = [(0i32, 3600i32), (0, 0), (3600, 0), (-18_000, -14_400)];
+    let mut v = vec![];
+    for (days, sign) in [(&late, 1i32), (&early, -1i32)] {
+        for &d1 in days.iter() {
+            for &d2 in days.iter() {
+                for &h1 in &hours {
+                    for &h2 in &hours {
+                        if h1 == h2 {
+                            continue;
+                        }
+                        for &(so, doff) in &offs {
+                            let rule = MRule { std: MLtt::new(so, false, Some("STD")), dst: MLtt::new(doff, true, Some("DST")), start: d1, start_time: sign * h1 * 3600, end: d2, end_time: sign * h2 * 3600 };
+                            if classify(&rule) != Class::Unstable {
+                                v.push(rule);
+                            }
+                        }
+                    }
+                }
+            }
+        }
+    }
+    v
+}
+
+/// Rules whose start and end fall on the same day in some years only (last vs fourth week-day of a month): every month, week day and
+/// orientation; UTC times of day equal, so the two events coincide in those years.
+pub fn tie_family_rules() -> Vec<MRule> {
+    use crate::model::{MDay, MLtt};
+    let mut v = vec![];
+    for m in 1..=12u8 {
+        for d in 0..=6u8 {
+            for (a, b) in [(MDay::M(m, 5, d), MDay::M(m, 4, d)), (MDay::M(m, 4, d), MDay::M(m, 5, d))] {
+                for (so, doff, stt, et) in [(0i32, 3600i32, 7200i32, 10_800i32), (0, 0, 0, 0), (3600, 0, 3600, 0)] {
+                    let rule = MRule { std: MLtt::new(so, false, Some("STD")), dst: MLtt::new(doff, true, Some("DST")), start: a, start_time: stt, end: b, end_time: et };
+                    if classify(&rule) != Class::Unstable {
+                        v.push(rule);
+                    }
+                }
+            }
+        }
+    }
+    v
+}
